@@ -26,19 +26,9 @@ namespace GscribModel.MotionTie
 /-- the builder object a model value stands for, with what has been written and the hook calls made so far -/
 def absB' (b : B) (o : List SStmt) (c : List HookCall) : BSt := { absB b with out := o, calls := c }
 
-def partCodes3 : Part → List String
-  | .instr c m _ => [(tableLookup c m).getD "?"]
-  | .gcode i _ _ => [i]
-  | .ainstr c m _ _ => [(tableLookup c m).getD "?"]
-  | _ => []
-def partAx : Part → Pt
-  | .gcode _ ax _ => ax
-  | .ainstr _ _ ax _ => ax
-  | _ => {}
-/-- a translated statement as (instructions, axis words, other words) -/
-def conv3 (s : SStmt) : List String × Pt × List (String × Rat) :=
-  (s.flatMap partCodes3, (s.head?.map partAx).getD {}, s.flatMap partWords)
-def view3 (s : Stmt) : List String × Pt × List (String × Rat) := (s.codes.map Code.text, s.ax, s.words)
+abbrev partCodes3 := partCodes
+abbrev conv3 := conv
+abbrev view3 := view
 
 def outOf : Option Err → Out
   | some e => .error e
@@ -299,7 +289,7 @@ theorem MotionTie_move (b : B) (req : Pt) (vps : VParams) (h : Rat)
       | some ws =>
         by_cases ht : b.okTrack ws
         · simp only [ht, if_true, Bool.not_true, Bool.false_eq_true, if_false, update_axes_eq (b.track ws) [] [] _ req vps ws hf, track_bounds, hk, write_eq]
-          (simp [AgreesM, accept, outOf, absB'_strip, absB', view3, conv3, partCodes3, partAx, partWords, Code.text, wordOf] <;> first | done | rfl)
+          (simp [AgreesM, accept, outOf, absB'_strip, absB', view, conv, partCodes, partAx, partWords, Code.text, wordOf] <;> first | done | rfl)
         · (simp [ht, AgreesM, reject, outOf, absB'_strip, absB'] <;> first | done | rfl)
     · simp only [he, if_false, Bool.not_false, if_true, prepared] at hd ⊢
       cases hf : VParams.fin? (applyHooks b h vps) with
@@ -307,7 +297,7 @@ theorem MotionTie_move (b : B) (req : Pt) (vps : VParams) (h : Rat)
       | some ws =>
         by_cases ht : b.okTrack ws
         · simp only [ht, if_true, Bool.not_true, Bool.false_eq_true, if_false, update_axes_eq (b.track ws) [] _ _ req _ ws hf, track_bounds, hk, write_eq]
-          (simp [AgreesM, accept, outOf, absB'_strip, absB', view3, conv3, partCodes3, partAx, partWords, Code.text, wordOf] <;> first | done | rfl)
+          (simp [AgreesM, accept, outOf, absB'_strip, absB', view, conv, partCodes, partAx, partWords, Code.text, wordOf] <;> first | done | rfl)
         · (simp [ht, AgreesM, reject, outOf, absB'_strip, absB', wordOf] <;> first | done | rfl)
   · (simp [hk, AgreesM, reject, outOf, absB'_strip, absB'] <;> first | done | rfl)
 
@@ -323,7 +313,7 @@ theorem MotionTie_rapid (b : B) (req : Pt) (vps : VParams) (h : Rat) (hd : Doubl
     | some ws =>
       by_cases ht : b.okTrack ws
       · simp only [ht, if_true, Bool.not_true, Bool.false_eq_true, if_false, update_axes_eq (b.track ws) [] [] _ req vps ws hf, track_bounds, hk, write_eq]
-        (simp [AgreesM, accept, outOf, absB'_strip, absB', view3, conv3, partCodes3, partAx, partWords, Code.text, wordOf] <;> first | done | rfl)
+        (simp [AgreesM, accept, outOf, absB'_strip, absB', view, conv, partCodes, partAx, partWords, Code.text, wordOf] <;> first | done | rfl)
       · (simp [ht, AgreesM, reject, outOf, absB'_strip, absB'] <;> first | done | rfl)
   · (simp [hk, AgreesM, reject, outOf, absB'_strip, absB'] <;> first | done | rfl)
 
@@ -379,7 +369,7 @@ theorem MotionTie_set_axis (b : B) (req : Pt) (vps : VParams) (h : Rat) :
     simp only [Option.map_some, update_axes_eq b [] [] _ req vps ws hf]
     by_cases hk : b.bounds.okAxes (b.axes.replace req)
     · simp only [hk, if_true, Bool.not_true, Bool.false_eq_true, if_false, write_eq]
-      (simp [AgreesM, accept, outOf, absB'_strip, absB', view3, conv3, partCodes3, partAx, partWords, Code.text, tlm, PositioningMode.memberName] <;> first | done | rfl)
+      (simp [AgreesM, accept, outOf, absB'_strip, absB', view, conv, partCodes, partAx, partWords, Code.text, tlm, PositioningMode.memberName] <;> first | done | rfl)
     · (simp [hk, AgreesM, reject, outOf, absB'_strip, absB'] <;> first | done | rfl)
 
 /-- **`auto_home()`** (`G28`): the homed axes become unknown. -/
@@ -397,7 +387,7 @@ theorem MotionTie_auto_home (b : B) (req : Pt) (vps : VParams) (h : Rat) :
     generalize (if req.isUnknown then Pt.zero else req) = m
     by_cases hk : b.bounds.okAxes (b.axes.mask m)
     · simp only [hk, if_true, Bool.not_true, Bool.false_eq_true, if_false, write_eq]
-      (simp [AgreesM, accept, outOf, absB'_strip, absB', view3, conv3, partCodes3, partAx, partWords, Code.text, tlm, PositioningMode.memberName] <;> first | done | rfl)
+      (simp [AgreesM, accept, outOf, absB'_strip, absB', view, conv, partCodes, partAx, partWords, Code.text, tlm, PositioningMode.memberName] <;> first | done | rfl)
     · (simp [hk, AgreesM, reject, outOf, absB'_strip, absB'] <;> first | done | rfl)
 
 /-- **`probe()`**: bounds on the target, formatting, F and S, then the probed axes become unknown. -/
@@ -418,7 +408,7 @@ theorem MotionTie_probe (b : B) (m : ProbeArg) (req : Pt) (vps : VParams) (h : R
         · have hm : (b.track ws).bounds.okAxes ((b.toAbsolute req).mask (wordOf b req)) = true := by
             rw [track_bounds]; exact okAxes_mask _ _ _ hk
           simp only [ht, if_true, PointTie_mask, update_axes_eq (b.track ws) [] [] _ req vps ws hf, hm, write_eq]
-          (simp [hk, AgreesM, accept, outOf, absB'_strip, absB', view3, conv3, partCodes3, partAx, partWords, Code.text, tlm, ProbingMode.memberName, ProbeArg.code, wordOf] <;> first | done | rfl)
+          (simp [hk, AgreesM, accept, outOf, absB'_strip, absB', view, conv, partCodes, partAx, partWords, Code.text, tlm, ProbingMode.memberName, ProbeArg.code, wordOf] <;> first | done | rfl)
         · (simp [hk, ht, AgreesM, reject, outOf, absB'_strip, absB'] <;> first | done | rfl)
     · cases hf : VParams.fin? vps <;> (simp [hk, AgreesM, reject, outOf, absB'_strip, absB'] <;> first | done | rfl)
 
@@ -533,7 +523,7 @@ theorem MotionTie_move_absolute (b : B) (req : Pt) (vps : VParams) (h : Rat) (hs
               cases hf'
               simp only [ht, if_true, update_axes_eq (bA.track ps) _ [] _ req vps ps hf, track_bounds, hokA, write_eq,
                 hdmT, reduceCtorEq, decide_false, Bool.not_false, hsetT, Bool.not_true, Bool.false_eq_true, if_false, hr]
-              (simp [AgreesM, accept, outOf, absB', absB, absG, view3, conv3, partCodes3, partAx, partWords, Code.text, modeStmt, dmStmt, dmOf, tl, DistanceMode.memberName, hsync, hr, B.commitAxes] <;> first | done | rfl)
+              (simp [AgreesM, accept, outOf, absB', absB, absG, view, conv, partCodes, partAx, partWords, Code.text, modeStmt, dmStmt, dmOf, tl, DistanceMode.memberName, hsync, hr, B.commitAxes] <;> first | done | rfl)
           · have hback : ({ bA with rel := true, srel := true } : B) = b := by
               rw [hbA]; cases b; simp_all
             simp only [hAh, he, Bool.false_eq_true, if_false, prepared, Bool.not_false, Bool.and_true, if_true, hAt, hAa]
@@ -541,14 +531,14 @@ theorem MotionTie_move_absolute (b : B) (req : Pt) (vps : VParams) (h : Rat) (hs
             cases hf' : VParams.fin? (applyHooks bA h vps) with
             | none =>
               simp only [hdmA, reduceCtorEq, decide_false, Bool.not_false, if_true, hsetT, hback, htgt]
-              (simp [AgreesM, outOf, absB', absB, view3, conv3, partCodes3, partAx, partWords, Code.text, modeStmt, dmStmt, dmOf, tl, DistanceMode.memberName, hr] <;> first | done | rfl)
+              (simp [AgreesM, outOf, absB', absB, view, conv, partCodes, partAx, partWords, Code.text, modeStmt, dmStmt, dmOf, tl, DistanceMode.memberName, hr] <;> first | done | rfl)
             | some ws =>
               by_cases ht' : b.okTrack ws
               · simp only [ht', if_true, update_axes_eq (bA.track ws) _ _ _ req _ ws hf', track_bounds, hokA, write_eq,
                   hdmT, reduceCtorEq, decide_false, Bool.not_false, hsetT, Bool.not_true, Bool.false_eq_true, if_false, hr, htgt]
-                (simp [AgreesM, accept, outOf, absB', absB, absG, view3, conv3, partCodes3, partAx, partWords, Code.text, modeStmt, dmStmt, dmOf, tl, DistanceMode.memberName, hsync, hr, B.commitAxes] <;> first | done | rfl)
+                (simp [AgreesM, accept, outOf, absB', absB, absG, view, conv, partCodes, partAx, partWords, Code.text, modeStmt, dmStmt, dmOf, tl, DistanceMode.memberName, hsync, hr, B.commitAxes] <;> first | done | rfl)
               · simp only [ht', Bool.false_eq_true, if_false, Bool.not_false, if_true, hdmA, reduceCtorEq, decide_false, hsetT, hback, htgt]
-                (simp [AgreesM, outOf, absB', absB, view3, conv3, partCodes3, partAx, partWords, Code.text, modeStmt, dmStmt, dmOf, tl, DistanceMode.memberName, hr] <;> first | done | rfl)
+                (simp [AgreesM, outOf, absB', absB, view, conv, partCodes, partAx, partWords, Code.text, modeStmt, dmStmt, dmOf, tl, DistanceMode.memberName, hr] <;> first | done | rfl)
         · have hr' : b.rel = false := by simpa using hr
           have hbb : bA = b := by rw [hbA]; exact bA_eq b hr' hsync
           subst hbb
@@ -566,7 +556,7 @@ theorem MotionTie_move_absolute (b : B) (req : Pt) (vps : VParams) (h : Rat) (hs
           · simp only [he, if_true, prepared, Bool.not_true, Bool.and_false, Bool.false_eq_true, if_false]
             simp only [hf, ht, if_true, update_axes_eq (bA.track ps) _ [] _ req vps ps hf, track_bounds, hk, write_eq,
               hdmT, decide_true, Bool.not_true, Bool.false_eq_true, if_false, hr']
-            (simp [AgreesM, accept, outOf, absB', absB, absG, view3, conv3, partCodes3, partAx, partWords, Code.text, hr'] <;> first | done | rfl)
+            (simp [AgreesM, accept, outOf, absB', absB, absG, view, conv, partCodes, partAx, partWords, Code.text, hr'] <;> first | done | rfl)
           · simp only [he, Bool.false_eq_true, if_false, prepared, Bool.not_false, Bool.and_true, if_true]
             cases hf' : VParams.fin? (applyHooks bA h vps) with
             | none =>
@@ -576,7 +566,7 @@ theorem MotionTie_move_absolute (b : B) (req : Pt) (vps : VParams) (h : Rat) (hs
               by_cases ht' : bA.okTrack ws
               · simp only [ht', if_true, update_axes_eq (bA.track ws) _ _ _ req _ ws hf', track_bounds, hk, write_eq,
                   hdmT, decide_true, Bool.not_true, Bool.false_eq_true, if_false, hr', htgt]
-                (simp [AgreesM, accept, outOf, absB', absB, absG, view3, conv3, partCodes3, partAx, partWords, Code.text, hr'] <;> first | done | rfl)
+                (simp [AgreesM, accept, outOf, absB', absB, absG, view, conv, partCodes, partAx, partWords, Code.text, hr'] <;> first | done | rfl)
               · simp only [ht', Bool.false_eq_true, if_false, Bool.not_false, if_true, hdmA, decide_true, Bool.not_true, htgt]
                 (simp [AgreesM, outOf, absB', absB, hr'] <;> first | done | rfl)
       · (simp [hk, ht, AgreesM, reject, outOf, absB'_strip, absB'] <;> first | done | rfl)
@@ -617,7 +607,7 @@ theorem MotionTie_rapid_absolute (b : B) (req : Pt) (vps : VParams) (h : Rat) (h
             simp [absB', absB, this]
           simp only [prepared, hf, hAt, ht, if_true, update_axes_eq (bA.track ps) _ [] _ req vps ps hf, track_bounds, hokA, write_eq,
             hdmT, reduceCtorEq, decide_false, Bool.not_false, hsetT, Bool.not_true, Bool.false_eq_true, if_false, hr]
-          (simp [AgreesM, accept, outOf, absB', absB, absG, view3, conv3, partCodes3, partAx, partWords, Code.text, modeStmt, dmStmt, dmOf, tl, DistanceMode.memberName, hsync, hr, B.commitAxes] <;> first | done | rfl)
+          (simp [AgreesM, accept, outOf, absB', absB, absG, view, conv, partCodes, partAx, partWords, Code.text, modeStmt, dmStmt, dmOf, tl, DistanceMode.memberName, hsync, hr, B.commitAxes] <;> first | done | rfl)
         · have hr' : b.rel = false := by simpa using hr
           have hbb : bA = b := by rw [hbA]; exact bA_eq b hr' hsync
           subst hbb
@@ -631,7 +621,7 @@ theorem MotionTie_rapid_absolute (b : B) (req : Pt) (vps : VParams) (h : Rat) (h
           rw [prepare_rapid_eq bA [] [] req req vps h hd]
           simp only [prepared, hf, ht, if_true, update_axes_eq (bA.track ps) _ [] _ req vps ps hf, track_bounds, hk, write_eq,
             hdmT, decide_true, Bool.not_true, Bool.false_eq_true, if_false, hr']
-          (simp [AgreesM, accept, outOf, absB', absB, absG, view3, conv3, partCodes3, partAx, partWords, Code.text, hr'] <;> first | done | rfl)
+          (simp [AgreesM, accept, outOf, absB', absB, absG, view, conv, partCodes, partAx, partWords, Code.text, hr'] <;> first | done | rfl)
       · (simp [hk, ht, AgreesM, reject, outOf, absB'_strip, absB'] <;> first | done | rfl)
     · (simp [hk, AgreesM, reject, outOf, absB'_strip, absB'] <;> first | done | rfl)
 
@@ -977,13 +967,13 @@ theorem GscribModel.MotionTie.haltRes_agrees (b : B) (m : HaltArg) (vps : VParam
         cases hk : m.kind with
         | none =>
           cases m <;> simp_all [HaltArg.kind] <;>
-            (simp [AgreesM, accept, outOf, absB', absB, view3, conv3, partCodes3, partAx, partWords, Code.text, haltStmt, haltOf, HaltArg.code, HaltMode.memberName, tlh] <;> first | done | rfl)
+            (simp [AgreesM, accept, outOf, absB', absB, view, conv, partCodes, partAx, partWords, Code.text, haltStmt, haltOf, HaltArg.code, HaltMode.memberName, tlh] <;> first | done | rfl)
         | some k =>
           by_cases ha : (haltTemps ps).all (b.bounds.okNum k) = true
           · simp only [ha, Bool.not_true, Bool.false_eq_true, if_false, if_true]
             cases m <;> simp_all [HaltArg.kind] <;> subst hk <;>
               (cases htm : haltTemp ps <;>
-                (simp [setTemp, AgreesM, accept, outOf, absB', absB, view3, conv3, partCodes3, partAx, partWords, Code.text, haltStmt, haltOf, HaltArg.code, HaltMode.memberName, tlh] <;> first | done | rfl))
+                (simp [setTemp, AgreesM, accept, outOf, absB', absB, view, conv, partCodes, partAx, partWords, Code.text, haltStmt, haltOf, HaltArg.code, HaltMode.memberName, tlh] <;> first | done | rfl))
           · (simp [ha, AgreesM, reject, outOf, absB'_strip, absB'] <;> first | done | rfl)
 
 /-- **`halt()`**: the mode, then the tool and coolant interlocks, then formatting, then every S / R temperature against the
@@ -1085,11 +1075,11 @@ theorem MotionTie_emergency_halt (b : B) (reset : Bool) (h : Rat) :
   · have hh := halt_eq_plain (stepCoolOff (stepToolOff b).1).1 ([] ++ [[Part.instr "SpinMode" (SpinMode.memberName .OFF) []]] ++ [[Part.instr "CoolantMode" (CoolantMode.memberName .OFF) []]] ++ [[Part.comment]]) [] .pause [] h (by simp)
     simp only [haltOf] at hh
     simp only [Bool.false_eq_true, if_false, hh, haltRes, ht, hc, VParams.fin?, HaltArg.kind]
-    (simp [step, AgreesM, accept, outOf, absB', absB, view3, conv3, partCodes3, partAx, partWords, Code.text, haltStmt, haltOf, HaltMode.memberName, SpinMode.memberName, CoolantMode.memberName, tlh, tl, stepToolOff, stepCoolOff] <;> first | done | rfl)
+    (simp [step, AgreesM, accept, outOf, absB', absB, view, conv, partCodes, partAx, partWords, Code.text, haltStmt, haltOf, HaltMode.memberName, SpinMode.memberName, CoolantMode.memberName, tlh, tl, stepToolOff, stepCoolOff] <;> first | done | rfl)
   · have hh := halt_eq_plain (stepCoolOff (stepToolOff b).1).1 ([] ++ [[Part.instr "SpinMode" (SpinMode.memberName .OFF) []]] ++ [[Part.instr "CoolantMode" (CoolantMode.memberName .OFF) []]] ++ [[Part.comment]]) [] .endReset [] h (by simp)
     simp only [haltOf] at hh
     simp only [if_true, hh, haltRes, ht, hc, VParams.fin?, HaltArg.kind, Bool.false_eq_true, if_false]
-    (simp [step, AgreesM, accept, outOf, absB', absB, view3, conv3, partCodes3, partAx, partWords, Code.text, haltStmt, haltOf, HaltMode.memberName, SpinMode.memberName, CoolantMode.memberName, tlh, tl, stepToolOff, stepCoolOff] <;> first | done | rfl)
+    (simp [step, AgreesM, accept, outOf, absB', absB, view, conv, partCodes, partAx, partWords, Code.text, haltStmt, haltOf, HaltMode.memberName, SpinMode.memberName, CoolantMode.memberName, tlh, tl, stepToolOff, stepCoolOff] <;> first | done | rfl)
 
 /-- **`add_hook()` / `remove_hook()`**: the hook list has no duplicates and removing an unknown hook changes nothing. -/
 theorem MotionTie_hooks (b : B) (hk : Hook) (h : Rat) :
@@ -1153,7 +1143,7 @@ theorem MotionTie_length_units (b : B) (i : Bool) (h : Rat) (hres : 0 < b.res) :
       simp only [decide_true, Bool.not_true, Bool.false_eq_true, if_false, write_eq]
       have hb : ({ b with inches := b.inches } : B) = b := rfl
       cases hq : b.inches <;>
-        (simp [step, hq, AgreesM, accept, outOf, absB', absB, absG, view3, conv3, partCodes3, partAx, partWords, Code.text, unitsOf, LengthUnits.memberName, tlu] <;> first | done | rfl)
+        (simp [step, hq, AgreesM, accept, outOf, absB', absB, absG, view, conv, partCodes, partAx, partWords, Code.text, unitsOf, LengthUnits.memberName, tlu] <;> first | done | rfl)
     · have hne : decide (unitsOf i = unitsOf b.inches) = false := by
         cases i <;> cases hq : b.inches <;> simp_all [unitsOf]
       have hle : Val.le (.fin b.res) (.fin 0) = false := by
@@ -1162,7 +1152,7 @@ theorem MotionTie_length_units (b : B) (i : Bool) (h : Rat) (hres : 0 < b.res) :
         GState._set_length_units]
       rw [write_any]
       cases i <;>
-        (simp [step, AgreesM, accept, outOf, absB', absB, absG, view3, conv3, partCodes3, partAx, partWords, Code.text, unitsOf, LengthUnits.memberName, tlu] <;> first | done | rfl)
+        (simp [step, AgreesM, accept, outOf, absB', absB, absG, view, conv, partCodes, partAx, partWords, Code.text, unitsOf, LengthUnits.memberName, tlu] <;> first | done | rfl)
   exact key
 
 namespace GscribModel.MotionTie
@@ -1212,11 +1202,104 @@ theorem MotionTie_contexts (b : B) (r : Bool) (h : Rat) :
       (simp [step, accept, absB', absB, absG] <;> first | done | rfl)
     · have hr' : r ≠ b.rel := hr
       cases r <;>
-        (simp [step, hr, hr', stepSetDist, accept, absB', absB, absG, view3, conv3, partCodes3, partAx, partWords, Code.text, modeStmt, dmStmt, dmOf, tl, DistanceMode.memberName] <;> first | done | rfl)
+        (simp [step, hr, hr', stepSetDist, accept, absB', absB, absG, view, conv, partCodes, partAx, partWords, Code.text, modeStmt, dmStmt, dmOf, tl, DistanceMode.memberName] <;> first | done | rfl)
   · intro prev rest hc
     rw [e0, (exit_eq b prev h).1, (exit_eq b prev h).2]
     by_cases hr : prev = b.rel
     · (simp [step, hc, hr, AgreesM, accept, outOf, absB', absB, absG] <;> first | done | rfl)
     · have hr' : prev ≠ b.rel := hr
       cases prev <;>
-        (simp [step, hc, hr, hr', stepSetDist, AgreesM, accept, outOf, absB', absB, absG, view3, conv3, partCodes3, partAx, partWords, Code.text, modeStmt, dmStmt, dmOf, tl, DistanceMode.memberName] <;> first | done | rfl)
+        (simp [step, hc, hr, hr', stepSetDist, AgreesM, accept, outOf, absB', absB, absG, view, conv, partCodes, partAx, partWords, Code.text, modeStmt, dmStmt, dmOf, tl, DistanceMode.memberName] <;> first | done | rfl)
+
+/-! ## every history: running the translated source is running the model -/
+namespace GscribModel.MotionTie
+
+theorem agreesB_M (r : Res) (b : B) (g : BSt × Option Err) (h : AgreesB r b g) (hc : r.calls = []) : AgreesM r g := by
+  obtain ⟨g1, g2⟩ := g
+  cases g2 with
+  | some e =>
+    obtain ⟨h1, h2⟩ := h
+    simp only at h2
+    subst h1 h2
+    exact ⟨rfl, rfl, rfl, rfl⟩
+  | none =>
+    obtain ⟨h1, h2, h3⟩ := h
+    simp only at h2 h3
+    have hcalls : g1.calls = [] := by
+      have := congrArg BSt.calls h2
+      simpa [absB] using this.symm
+    refine ⟨h1, ?_, h3, ?_⟩
+    · rw [h2]; cases g1; simp_all
+    · simp [hc, hcalls]
+
+/-- the operations whose translated counterpart the theorems above cover, with their side conditions -/
+def OpOk (b : B) : Op → Prop
+  | .move r p ps h => (∃ req, p = VPt.ofPt req) ∧ (if r then DoubleFS ps else DoubleFS (if b.hooks.isEmpty then ps else applyHooks b h ps))
+  | .moveAbs r p ps h => (∃ req, p = VPt.ofPt req) ∧ b.srel = b.rel ∧ DoubleFS ps ∧
+      (r = false → DoubleFS (if b.hooks.isEmpty then ps else applyHooks { b with rel := false, srel := false } h ps))
+  | .setAxis p _ => ∃ req, p = VPt.ofPt req
+  | .home p _ => ∃ req, p = VPt.ofPt req
+  | .probe _ p ps => (∃ req, p = VPt.ofPt req) ∧ DoubleFS ps
+  | .halt _ ps => (ps.map (·.1)).Nodup
+  | .feed v => Val.isDouble v
+  | .power v => Val.isDouble v
+  | .toolOn _ v => Val.isDouble v
+  | .powerOn _ v => Val.isDouble v
+  | .units _ => 0 < b.res
+  | .boundsAxes _ _ => False
+  | .boundsNum _ _ _ => False
+  | _ => True
+
+/-- the translated command an operation of the model stands for (`cx`: the modes saved by the open mode contexts) -/
+def srcStep (s : BSt) (cx : List DistanceMode) : Op → (BSt × Option Err) × List DistanceMode
+  | .move r p ps h => (match p.fin? with
+      | some req => if r then GCodeCore.rapid s req ps h else GCodeCore.move s req ps h
+      | none => (s, some .valueError), cx)
+  | .moveAbs r p ps h => (match p.fin? with
+      | some req => if r then GCodeBuilder.rapid_absolute s req ps h else GCodeBuilder.move_absolute s req ps h
+      | none => (s, some .valueError), cx)
+  | .setAxis p ps => (match p.fin? with | some req => GCodeBuilder.set_axis s req ps 0 | none => (s, some .valueError), cx)
+  | .home p ps => (match p.fin? with | some req => GCodeBuilder.auto_home s req ps 0 | none => (s, some .valueError), cx)
+  | .probe m p ps => (match p.fin? with | some req => GCodeBuilder.probe s (argProbe m) req ps 0 | none => (s, some .valueError), cx)
+  | .setDist r => (GCodeBuilder.set_distance_mode s (.val (bif r then .RELATIVE else .ABSOLUTE)), cx)
+  | .setDistBogus => (GCodeBuilder.set_distance_mode s .bogus, cx)
+  | .enterCtx r =>
+      let g := if r then GCodeCore.relative_mode_enter s 0 else GCodeCore.absolute_mode_enter s 0
+      match g.2 with
+      | .ok prev => ((g.1, none), prev :: cx)
+      | .error e => ((g.1, some e), cx)
+  | .exitCtx => match cx with
+      | [] => ((s, none), [])
+      | prev :: rest => (GCodeCore.absolute_mode_exit s prev 0, rest)
+  | .feed v => (GCodeBuilder.set_feed_rate s v, cx)
+  | .power v => (GCodeBuilder.set_tool_power s v, cx)
+  | .toolOn m v => (GCodeBuilder.tool_on s (argSpin m) v, cx)
+  | .toolOff => (GCodeBuilder.tool_off s, cx)
+  | .powerOn m v => (GCodeBuilder.power_on s (argPow m) v, cx)
+  | .powerOff => (GCodeBuilder.power_off s, cx)
+  | .coolOn m => (GCodeBuilder.coolant_on s (argCool m), cx)
+  | .coolOff => (GCodeBuilder.coolant_off s, cx)
+  | .toolChange m n => (GCodeBuilder.tool_change s (argSwap m) n, cx)
+  | .halt m ps => (GCodeBuilder.halt s (argHalt m) ps 0, cx)
+  | .ehalt reset => (GCodeBuilder.emergency_halt s reset 0, cx)
+  | .bed v => (GCodeBuilder.set_bed_temperature s v, cx)
+  | .hotend v => (GCodeBuilder.set_hotend_temperature s v, cx)
+  | .chamber v => (GCodeBuilder.set_chamber_temperature s v, cx)
+  | .sleep v => (GCodeBuilder.sleep s v, cx)
+  | .fan v n => (GCodeBuilder.set_fan_speed s v n, cx)
+  | .units i => (GCodeBuilder.set_length_units s (.val (unitsOf i)) 0, cx)
+  | .plane n => (GCodeBuilder.set_plane s (argPlane n), cx)
+  | .direction c => (GCodeBuilder.set_direction s (.val (bif c then .COUNTER else .CLOCKWISE)), cx)
+  | .resolution q => (GCodeBuilder.set_resolution s (.fin q), cx)
+  | .emode r => (GCodeBuilder.set_extrusion_mode s (.val (bif r then .RELATIVE else .ABSOLUTE)), cx)
+  | .fmode n => (GCodeBuilder.set_feed_mode s (argFmode n), cx)
+  | .timeUnits t => (GCodeBuilder.set_time_units s (.val (bif t then .MILLISECONDS else .SECONDS)), cx)
+  | .tempUnits k => (GCodeBuilder.set_temperature_units s (.val (bif k then .KELVIN else .CELSIUS)), cx)
+  | .query t => (GCodeBuilder.query s (.val (bif t then .TEMPERATURE else .POSITION)), cx)
+  | .comment => (GCodeCore.comment s 0, cx)
+  | .addHook hk => (GCodeBuilder.add_hook s hk 0, cx)
+  | .removeHook hk => (GCodeBuilder.remove_hook s hk 0, cx)
+  | .boundsAxes _ _ => ((s, none), cx)      -- `set_bounds` is tied through `BoundsTie`, not through the builder translation
+  | .boundsNum _ _ _ => ((s, none), cx)
+
+end GscribModel.MotionTie
